@@ -28,5 +28,7 @@ def run(ctx, rep):
 
     textparse.rule_canonical_index_keys(ctx, rep, "C17-R11")
     textparse.rule_includes_same_value_zero(ctx, rep, "C17-R13")
+    builtins.rule_typed_array_reads_through_buffer(ctx, rep, "C17-R14")
+    builtins.rule_no_read_after_write_between_views(ctx, rep, "C17-R15")
     textparse.rule_negative_positions(ctx, rep, "C17-R12", only=lambda q: "_make_array_method" in q or "_make_typed_array_method" in q or "_create_array_constructor" in q, floor=5)
     rep.undecided += ["the method result tables over the argument grid (values, not shape): a runtime differential, outside static analysis"]
